@@ -4,6 +4,14 @@
 
 use crate::ast::*;
 
+thread_local! {
+    /// (from, to): while set, every occurrence of the variable name `from` (declarations, parameters,
+    /// loop and catch variables, reads, assignment targets) is written as `to`. Property names, function
+    /// and class names are left alone. Used to give one variable of a generated program an unusual
+    /// spelling without touching the program itself (the reference interpreter runs the AST).
+    pub static RESPELL: std::cell::RefCell<Option<(String, String)>> = std::cell::RefCell::new(None);
+}
+
 pub struct Printer {
     out: String,
     line: u32,
@@ -72,6 +80,14 @@ fn starts_with_brace(e: &Expr) -> bool {
 }
 
 impl Printer {
+    fn ident(&mut self, n: &str) {
+        let to = RESPELL.with(|r| r.borrow().as_ref().and_then(|(f, t)| if f == n { Some(t.clone()) } else { None }));
+        match to {
+            Some(t) => self.out.push_str(&t),
+            None => self.out.push_str(n),
+        }
+    }
+
     pub fn new() -> Self {
         Printer {
             out: String::new(),
@@ -195,7 +211,7 @@ impl Printer {
                 self.out.push_str(", ");
             }
             first = false;
-            self.out.push_str(p);
+            self.ident(p);
         }
         self.out.push_str(") ");
         match &f.body {
@@ -238,7 +254,7 @@ impl Printer {
             }
             StmtKind::Var(n, init) => {
                 self.out.push_str("var ");
-                self.out.push_str(n);
+                self.ident(n);
                 if let Some(e) = init {
                     self.out.push_str(" = ");
                     self.expr(e, 0);
@@ -259,7 +275,7 @@ impl Printer {
             }
             StmtKind::For(v, it, body) => {
                 self.out.push_str("for ");
-                self.out.push_str(v);
+                self.ident(v);
                 self.out.push_str(" in ");
                 self.expr(it, 0);
                 s.aux_line.set(self.line);
@@ -287,7 +303,7 @@ impl Printer {
                 self.block(body);
                 if let Some((n, b)) = catch {
                     self.out.push_str(" catch ");
-                    self.out.push_str(n);
+                    self.ident(n);
                     self.out.push(' ');
                     self.block(b);
                 }
@@ -337,7 +353,7 @@ impl Printer {
             if i > 0 {
                 self.out.push_str(", ");
             }
-            self.out.push_str(p);
+            self.ident(p);
         }
         self.out.push_str(") ");
         match &f.body {
@@ -361,7 +377,9 @@ impl Printer {
                 if !first {
                     self.out.push_str(", ");
                 }
-                self.out.push_str(&format!("derive({})", n));
+                self.out.push_str("derive(");
+                self.ident(n);
+                self.out.push(')');
             }
             self.out.push(']');
             self.end_stmt();
@@ -432,7 +450,7 @@ impl Printer {
 
     fn target(&mut self, t: &Target) {
         match t {
-            Target::Var(n) => self.out.push_str(n),
+            Target::Var(n) => self.ident(n),
             Target::Prop(o, n) => {
                 self.expr(o, PREC_CALL);
                 self.out.push('.');
@@ -479,7 +497,7 @@ impl Printer {
                 self.out.push('"');
             }
             Expr::Var(n, l) => {
-                self.out.push_str(n);
+                self.ident(n);
                 l.set(self.line);
             }
             Expr::SelfE => self.out.push_str("self"),
@@ -589,7 +607,7 @@ impl Printer {
                     if i > 0 {
                         self.out.push_str(", ");
                     }
-                    self.out.push_str(p);
+                    self.ident(p);
                 }
                 self.out.push_str("| ");
                 match &f.body {
